@@ -149,7 +149,8 @@ def handle (j : Json) : Except String Json := do
           ("C03", pj (DomC03 i) (holdsC03 i o)),
           ("C04", pj (DomC04 i) (holdsC04 i o)),
           ("C05", pj true (holdsC05 i o)),
-          ("C05any", pj (msgIdExc msg).isNone (holdsC05any i o)),
+          ("C05any", pj true (holdsC05any i o)),
+          ("C05total", pj (msgIdExc msg).isNone (holdsC05any i o)),
           ("C06", pj (DomC06 i) (holdsC06 i o)),
           ("C07", pj true (holdsC07 i o)),
           ("C12", pj (DomC12 i) (holdsC12 i o))]
